@@ -1220,7 +1220,10 @@ def run(chk):
                 "structures in random order on ONE Coverage object, evidence snapshot and comparison with a fresh equal Coverage after each.  "
                 "call order = random sequences of 6-14 cheap public calls (Profile.load of shipped profiles with / without a custom neutral "
                 "region and parameters, Gene loads for both builds), each result compared with the same call in a pristine forked image")
-    chk.extra_trusted = ["gendb.py / simreads.py generators; deep-snapshot code (dict order kept, sets sorted); PYTHONHASHSEED handling of CPython",
+    chk.extra_trusted = ["harness/gen_frame.py: translator of 21 operations of /repo into the aliasing programs of gen/Frame_here.v (classification of "
+                         "Python expressions into fresh containers / aliases / in-place writes, linearisation of branches and loops, constructor "
+                         "and log-sink lists); C14_tie_ops_here_frame is about those programs",
+                         "gendb.py / simreads.py generators; deep-snapshot code (dict order kept, sets sorted); PYTHONHASHSEED handling of CPython",
                          "Frame.v programs are hand transcriptions of the Python operations (tie = snapshots, not a translator)"]
     chk.assumptions = ["scores compared to 1e-6 abs + 1e-9 rel, everything else (names, variant lists, output files) exactly"]
     chk.build()
